@@ -330,9 +330,9 @@ fn hierarchy__order_and_restriction() {
             match s.dimensions["H"].restrict(name.clone()).unwrap() {
                 Dimension::Hierarchy(d) => {
                     let got: Vec<String> = d.keys().cloned().collect();
-                    assert!(got == order[..=rank].to_vec(), "C01/C02: restriction of {order:?} to {name} is {got:?}, expected exactly the attributes at or below it");
+                    assert!(got == order[..=rank].to_vec(), "C01/C02/C03: restriction of {order:?} (built by successive insertions) to {name} is {got:?}, expected exactly the attributes at or below it");
                     for k in d.keys() {
-                        assert!(d.get(k) == s.dimensions["H"].get_attribute(k), "C01: restriction keeps ids, hints and status");
+                        assert!(d.get(k) == s.dimensions["H"].get_attribute(k), "C01/C03: restriction keeps ids, hints and status");
                     }
                 }
                 _ => panic!("C01: restriction of a hierarchy is a hierarchy"),
@@ -362,7 +362,7 @@ fn hierarchy__order_and_restriction() {
                     Dimension::Hierarchy(d) => {
                         let got: Vec<(String, Attribute)> = d.iter().map(|(k, v)| (k.clone(), v.clone())).collect();
                         let exp: Vec<(String, Attribute)> = o2[..=rank].iter().map(|k| (k.clone(), s.dimensions["H"].get_attribute(k).unwrap().clone())).collect();
-                        assert!(got == exp, "C01/C02: after deleting {} from {order:?}, the restriction to {name} is {got:?}, expected {exp:?}", order[del]);
+                        assert!(got == exp, "C01/C02/C03: after deleting {} from {order:?}, the restriction to {name} is {got:?}, expected {exp:?}", order[del]);
                     }
                     _ => panic!("C01: restriction of a hierarchy is a hierarchy"),
                 }
